@@ -171,7 +171,7 @@ func parsePossibility(input *input, relation *Relation) error {
 				return err
 			}
 			continue
-		case ' ', '(':
+		case ' ', '\t', '\n', '\r', '(':
 			err := parsePossibilityControllers(input, ret)
 			if err != nil {
 				return err
@@ -221,7 +221,7 @@ func parseMultiarch(input *input, possi *Possibility) error {
 	for {
 		peek := input.Peek()
 		switch peek {
-		case ',', '|', 0, ' ', '(', '[', '<':
+		case ',', '|', 0, ' ', '\t', '\n', '\r', '(', '[', '<':
 			arch, err := ParseArch(name)
 			if err != nil {
 				return err
